@@ -261,54 +261,71 @@ Proof.
   destruct sp; simpl; auto.
 Qed.
 
+Lemma set_inter_same (a : gargs (A:=A) (I:=I)) g : set_inter (set_gpsis a g) (a_inter a) = set_gpsis a g.
+Proof. reflexivity. Qed.
+
 Section History.
 Variable f : wfun (A:=A) (I:=I).
-(* the two facts about f the history theorem rests on *)
-Hypothesis f_buffer_free : forall x T a g, gamma_of f (set_gpsis a g) x T = gamma_of f a x T.
-Hypothesis f_keeps_x : forall x T a w, f_apply f x T a = Ok w -> w_x w = x.
+Variable m : mfun (A:=A) (I:=I).
+Variable act : gargs (A:=A) (I:=I) -> list A -> A -> list A.
+Variable a : gargs (A:=A) (I:=I).
+(* what is known about the buffer between operations (it is only ever written through the mask) *)
+Variable Inv : list (list A) -> Prop.
+(* the facts about f and the method the history theorem rests on *)
+Hypothesis f_buffer_free : forall x T g, gamma_of f (set_gpsis a g) x T = gamma_of f a x T.
+Hypothesis f_keeps_x : forall x T g w, f_apply f x T (set_gpsis a g) = Ok w -> w_x w = x.
+Hypothesis f_inv : forall x T g w, Inv g -> f_apply f x T (set_gpsis a g) = Ok w -> Inv (w_gpsis w).
+Hypothesis m_ok : forall v T g, Inv g ->
+  exists g', Inv g' /\ m_apply m v T (set_gpsis a g) = (act a v T, g', a_inter a).
 
 (* one step of the object (whatever its buffer holds) is one step of the state-free specification *)
-Lemma hstep_spec o arrays results a g :
-  exists g', hstep f (mkH arrays results (set_gpsis a g)) o =
-             (mkH (fst (fst (spec_step f a (arrays, results) o))) (snd (fst (spec_step f a (arrays, results) o)))
-                  (set_gpsis a g'),
-              snd (spec_step f a (arrays, results) o)).
+Lemma hstep_spec o arrays results g : Inv g ->
+  exists g', Inv g' /\
+    hstep f m (mkH arrays results (set_gpsis a g)) o =
+    (mkH (fst (fst (spec_step f act a (arrays, results) o))) (snd (fst (spec_step f act a (arrays, results) o)))
+         (set_gpsis a g'),
+     snd (spec_step f act a (arrays, results) o)).
 Proof.
-  destruct o as [r alias T|r T|r v|k v]; cbn [hstep spec_step h_arrays h_results h_args fst snd].
-  - pose proof (f_buffer_free (nth r arrays []) T a g) as B. unfold gamma_of in *.
+  intros HI.
+  destruct o as [r alias T|r T|v T|r v|k v]; cbn [hstep spec_step h_arrays h_results h_args fst snd].
+  - pose proof (f_buffer_free (nth r arrays []) T g) as B. unfold gamma_of in *.
     unfold call.
     assert (XV : xval (if alias then XFloat64 (nth r arrays []) else XOther (nth r arrays [])) = nth r arrays [])
       by (destruct alias; reflexivity).
     rewrite XV.
     destruct (f_apply f (nth r arrays []) T (set_gpsis a g)) as [w|e] eqn:E; cbn [bind c_x c_gamma c_gpsis];
       rewrite <- B.
-    + exists (w_gpsis w). rewrite set_gpsis_twice.
+    + exists (w_gpsis w). split; [apply (f_inv _ _ _ _ HI E)|]. rewrite set_gpsis_twice.
       assert (X : (match (if alias then XFloat64 (nth r arrays []) else XOther (nth r arrays [])) with
                    | XFloat64 _ => w_x w | XOther v => v end) = nth r arrays []).
       { destruct alias; auto. apply (f_keeps_x _ _ _ _ E). }
       rewrite X. rewrite upd_nth_same. reflexivity.
-    + exists g. reflexivity.
-  - pose proof (f_buffer_free (nth r arrays []) T a g) as B. unfold gamma_of in *.
+    + exists g. split; [exact HI|reflexivity].
+  - pose proof (f_buffer_free (nth r arrays []) T g) as B. unfold gamma_of in *.
     destruct (f_apply f (nth r arrays []) T (set_gpsis a g)) as [w|e] eqn:E; rewrite <- B.
-    + exists (w_gpsis w). rewrite set_gpsis_twice. rewrite (f_keeps_x _ _ _ _ E). rewrite upd_nth_same. reflexivity.
-    + exists g. reflexivity.
-  - exists g. reflexivity.
-  - exists g. reflexivity.
+    + exists (w_gpsis w). split; [apply (f_inv _ _ _ _ HI E)|].
+      rewrite set_gpsis_twice. rewrite (f_keeps_x _ _ _ _ E). rewrite upd_nth_same. reflexivity.
+    + exists g. split; [exact HI|reflexivity].
+  - destruct (m_ok v T g HI) as (g' & HI' & E). rewrite E.
+    exists g'. split; [exact HI'|]. rewrite set_gpsis_twice. rewrite set_inter_same. reflexivity.
+  - exists g. split; [exact HI|reflexivity].
+  - exists g. split; [exact HI|reflexivity].
 Qed.
 
-Lemma run_hist_spec ops : forall arrays results a g,
-  exists g', run_hist f (mkH arrays results (set_gpsis a g)) ops =
-             (mkH (fst (fst (spec_hist f a (arrays, results) ops))) (snd (fst (spec_hist f a (arrays, results) ops)))
-                  (set_gpsis a g'),
-              snd (spec_hist f a (arrays, results) ops)).
+Lemma run_hist_spec ops : forall arrays results g, Inv g ->
+  exists g', Inv g' /\
+    run_hist f m (mkH arrays results (set_gpsis a g)) ops =
+    (mkH (fst (fst (spec_hist f act a (arrays, results) ops))) (snd (fst (spec_hist f act a (arrays, results) ops)))
+         (set_gpsis a g'),
+     snd (spec_hist f act a (arrays, results) ops)).
 Proof.
-  induction ops as [|o t IH]; intros arrays results a g; [exists g; reflexivity|].
+  induction ops as [|o t IH]; intros arrays results g HI; [exists g; split; [exact HI|reflexivity]|].
   cbn [run_hist spec_hist].
-  destruct (hstep_spec o arrays results a g) as [g1 H1]. rewrite H1.
-  destruct (spec_step f a (arrays, results) o) as [[arr1 res1] out1] eqn:S1. cbn [fst snd].
-  destruct (IH arr1 res1 a g1) as [g2 H2]. rewrite H2.
-  destruct (spec_hist f a (arr1, res1) t) as [[arr2 res2] outs2]. cbn [fst snd].
-  exists g2. reflexivity.
+  destruct (hstep_spec o arrays results g HI) as (g1 & HI1 & H1). rewrite H1.
+  destruct (spec_step f act a (arrays, results) o) as [[arr1 res1] out1] eqn:S1. cbn [fst snd].
+  destruct (IH arr1 res1 g1 HI1) as (g2 & HI2 & H2). rewrite H2.
+  destruct (spec_hist f act a (arr1, res1) t) as [[arr2 res2] outs2]. cbn [fst snd].
+  exists g2. split; [exact HI2|reflexivity].
 Qed.
 End History.
 
@@ -330,31 +347,80 @@ Proof.
   - subst. reflexivity.
 Qed.
 
-Lemma wrapper_history sp psi lgc gac (a : gargs (A:=A) (I:=I)) arrays results ops :
-  let f := wrapper K GatherIntoSub sp psi lgc gac in
-  let S := spec_hist f a (arrays, results) ops in
-  let R := run_hist f (mkH arrays results a) ops in
-  snd R = snd S /\ h_arrays (fst R) = fst (fst S) /\ h_results (fst R) = snd (fst S).
+(* ---- the buffer is only ever written through the mask: cells outside the mask stay zero ---- *)
+Definition same_shape {B C} (p : list (list B)) (q : list (list C)) : Prop :=
+  Forall2 (fun pr qr => length pr = length qr) p q.
+Definition clean_buffer (mask : list (list bool)) (g : list (list A)) : Prop :=
+  exists p, same_shape p mask /\ g = fill_group_psis K p mask.
+
+Lemma masked_row (pr qr : list A) (mr : list bool) : length pr = length mr -> length qr = length mr ->
+  map3 (fun b p (m0 : bool) => if m0 then p else b) (map2 (fun p (m0 : bool) => if m0 then p else kzero K) pr mr) qr mr =
+  map2 (fun p (m0 : bool) => if m0 then p else kzero K) qr mr.
 Proof.
-  intros f S R. subst R S.
-  assert (HB : forall x T a0 g, gamma_of f (set_gpsis a0 g) x T = gamma_of f a0 x T)
+  revert pr qr; induction mr as [|m0 mr IH]; intros [|p0 pr] [|q0 qr] Lp Lq; simpl in *; try discriminate; auto.
+  rewrite IH by lia. destruct m0; reflexivity.
+Qed.
+
+Lemma masked_update_fill (p q : list (list A)) mask : same_shape p mask -> same_shape q mask ->
+  masked_update (fill_group_psis K p mask) q mask = fill_group_psis K q mask.
+Proof.
+  unfold masked_update, fill_group_psis, same_shape.
+  revert p q; induction mask as [|mr mask IH]; intros p q Sp Sq; inversion Sp; inversion Sq; subst; simpl; auto.
+  rewrite masked_row by assumption. f_equal. apply IH; assumption.
+Qed.
+
+Lemma wrapper_keeps_clean sp psi lgc gac x T inter g mask qs rs Qs cg cQfs index w :
+  (forall T0, same_shape (psi T0 inter) mask) -> clean_buffer mask g ->
+  wrapper (I:=I) K GatherIntoSub sp psi lgc gac x T inter g mask qs rs Qs cg cQfs index = Ok w ->
+  clean_buffer mask (w_gpsis w).
+Proof.
+  intros Hs Hc. unfold wrapper.
+  destruct (1 <? length index)%nat; [|intros H; inversion H; exact Hc].
+  destruct (gather_loop K GatherIntoSub index x (ones K (length index))) as [x1 xs1].
+  destruct (negb _).
+  - intros H; inversion H; subst; simpl. exists (psi T inter). split; [apply Hs|reflexivity].
+  - destruct sp; intros H; inversion H; subst; simpl. exact Hc.
+Qed.
+
+Lemma wrapper_history sp psi psi_effect lgc gac (a : gargs (A:=A) (I:=I)) arrays results ops :
+  (forall T0, same_shape (psi T0 (a_inter a)) (a_mask a)) -> clean_buffer (a_mask a) (a_gpsis a) ->
+  let f := wrapper K GatherIntoSub sp psi lgc gac in
+  let m := act_method InterCopied psi psi_effect lgc gac in
+  let S := spec_hist f (act_spec K psi lgc gac) a (arrays, results) ops in
+  let R := run_hist f m (mkH arrays results a) ops in
+  snd R = snd S /\ h_arrays (fst R) = fst (fst S) /\ h_results (fst R) = snd (fst S) /\
+  a_inter (h_args (fst R)) = a_inter a /\ clean_buffer (a_mask a) (a_gpsis (h_args (fst R))).
+Proof.
+  intros Hs Hc f m S R. subst R S.
+  assert (HB : forall x T g, gamma_of f (set_gpsis a g) x T = gamma_of f a x T)
     by (intros; apply wrapper_buffer_free).
-  assert (HX : forall x T a0 w, f_apply f x T a0 = Ok w -> w_x w = x)
-    by (intros x T a0 w H; unfold f_apply in H; eapply wrapper_x_untouched; eauto).
-  destruct (run_hist_spec f HB HX ops arrays results a (a_gpsis a)) as [g' H].
-  rewrite set_gpsis_self in H. rewrite H. cbn [fst snd h_arrays h_results]. auto.
+  assert (HX : forall x T g w, f_apply f x T (set_gpsis a g) = Ok w -> w_x w = x)
+    by (intros x T g w H; unfold f_apply in H; eapply wrapper_x_untouched; eauto).
+  assert (HI : forall x T g w, clean_buffer (a_mask a) g -> f_apply f x T (set_gpsis a g) = Ok w ->
+                               clean_buffer (a_mask a) (w_gpsis w)).
+  { intros x T g w Hg H. unfold f_apply in H. cbn in H. eapply wrapper_keeps_clean; eauto. }
+  assert (HM : forall v T g, clean_buffer (a_mask a) g ->
+             exists g', clean_buffer (a_mask a) g' /\
+                        m_apply m v T (set_gpsis a g) = (act_spec K psi lgc gac a v T, g', a_inter a)).
+  { intros v T g (p & Sp & ->). exists (fill_group_psis K (psi T (a_inter a)) (a_mask a)). split.
+    - exists (psi T (a_inter a)). split; [apply Hs|reflexivity].
+    - unfold m_apply, m, act_method, act_spec, set_gpsis. cbn [a_inter a_gpsis a_mask a_qs a_rs a_Qs a_chemgroups a_cQfs].
+      rewrite (masked_update_fill p (psi T (a_inter a)) (a_mask a) Sp (Hs T)). reflexivity. }
+  destruct (run_hist_spec f m (act_spec K psi lgc gac) a (clean_buffer (a_mask a)) HB HX HI HM
+              ops arrays results (a_gpsis a) Hc) as (g' & Hg' & H).
+  rewrite set_gpsis_self in H. rewrite H. cbn [fst snd h_arrays h_results h_args]. auto.
 Qed.
 
 (* the specification: the caller's arrays change only by the caller's writes; a result, once handed out, changes only
    by the caller's writes to it (later calls neither read nor write it) *)
-Lemma spec_hist_arrays (f : wfun (A:=A) (I:=I)) a ops : forall arrays results,
-  fst (fst (spec_hist f a (arrays, results) ops)) =
+Lemma spec_hist_arrays (f : wfun (A:=A) (I:=I)) act a ops : forall arrays results,
+  fst (fst (spec_hist f act a (arrays, results) ops)) =
   fold_left (fun arr o => match o with HSet r v => upd arr r v | _ => arr end) ops arrays.
 Proof.
   induction ops as [|o t IH]; intros arrays results; [reflexivity|].
   cbn [spec_hist fold_left].
-  destruct (spec_step f a (arrays, results) o) as [[arr1 res1] out1] eqn:S1.
-  specialize (IH arr1 res1). destruct (spec_hist f a (arr1, res1) t) as [[arr2 res2] outs2]. cbn [fst snd] in *.
+  destruct (spec_step f act a (arrays, results) o) as [[arr1 res1] out1] eqn:S1.
+  specialize (IH arr1 res1). destruct (spec_hist f act a (arr1, res1) t) as [[arr2 res2] outs2]. cbn [fst snd] in *.
   rewrite IH. f_equal. destruct o; cbn in S1; inversion S1; reflexivity.
 Qed.
 
